@@ -215,7 +215,7 @@ PROPS = {
                 level_note=LEVEL_NOTE),
     'C09': dict(level='proof', module='EscProofs.P.C09', streams=hist('C09', extra=[('churn', 150, 6000, 600), ('down', 150, 6000, 600), ('faults', 150, 6000, 0), BIG]),
                 aspects=['hist:gets', 'hist:updates', 'hist:removals'], monitors=['C09'],
-                theorems=['Esc.P.C09_untouched', 'Esc.P.C09_history', 'Esc.P.C09_uncounted', 'Esc.P.C09_cache_uncounted', 'Esc.P.C09_lists_uncounted', 'Esc.P.C09_alloc_irrelevant'],
+                theorems=['Esc.P.C09_untouched', 'Esc.P.C09_history', 'Esc.P.C09_uncounted', 'Esc.P.C09_cache_uncounted', 'Esc.P.C09_lists_uncounted', 'Esc.P.C09_alloc_irrelevant', 'Esc.P.gen_classifyNode_eq', 'Esc.P.C09_source_cordoned', 'Esc.P.gen_classifyNode_total', 'Esc.P.gen_classify_translation_complete'],
                 technique='Lean 4 theorem (journal anatomy: every node-targeting call names an uncordoned node of the view) + differential correspondence and runtime monitor',
                 level_text='C09_untouched / C09_history: outside dry mode every GET/UPDATE/DELETE/terminate targets an uncordoned node of that scan\'s view, whatever the cordoned nodes carry; '
                            'C09_uncounted: a cordoned node is in none of the working lists (so not in the capacity sum); C09_alloc_irrelevant: outside dry mode the complete result of a group scan (decision, every call, new controller and provider state) is the same whatever allocatable CPU/memory the cordoned nodes report. Tie: hist correspondence on node-targeting calls + monitor. '
@@ -260,7 +260,7 @@ PROPS = {
                              search=[('awsops', ['-n', 20000]), ('fleetops', ['-n', 300]), ('hist', ['-n', 1500, '-scans', 12, '-focus', 'up']), ('hist', ['-n', 32, '-scans', 6, '-focus', 'up', '-slow']), ('hist', ['-n', 1500, '-scans', 12, '-focus', 'multi']), ('assemble', ['-n', 400, '-bin', '@BUILD/escalator-verif-bin'])]),
                 aspects=['journal', 'outcome', 'hist:resize', 'assemble-cloud', 'assemble-no-dump', 'bad-case'], monitors=['C17'],
                 theorems=['Esc.P.C17_increase', 'Esc.P.C17_reject', 'Esc.P.C17_never_lowers', 'Esc.P.C17_attach_partition', 'Esc.P.C17_batch_limits',
-                          'Esc.P.mkFleetReq_ok', 'Esc.P.C17_scan_never_lowers', 'Esc.P.assemble_ready_timeout'],
+                          'Esc.P.mkFleetReq_ok', 'Esc.P.C17_scan_never_lowers', 'Esc.P.assemble_ready_timeout', 'Esc.P.gen_increaseSize_eq', 'Esc.P.C17_source_dispatch', 'Esc.P.gen_aws_translation_complete'],
                 technique='Lean 4 theorem over the model of aws.NodeGroup.IncreaseSize (all deltas, bounds, fleet sizes, environments; batch constants regenerated from source) + differential correspondence on full AWS call arguments + monitor',
                 level_text='C17_scan_never_lowers: every SetDesiredCapacity in the journal of ScaleUp asks for strictly more than the desired size the provider holds for the group at that moment (the implementation-side oracle loweringRequests is its negation, judged against the description the cloud itself gives). C17_increase: rejected requests make no call; otherwise exactly SetDesiredCapacity(current+d), or in fleet mode at most one CreateFleet for exactly d (min target d, instant, '
                            'configured template, default on-demand, overrides from the configured types) and never a SetDesiredCapacity; C17_attach_partition: attach calls carry consecutive batches of the acquired ids, '
@@ -286,7 +286,7 @@ PROPS = {
                              search=[('awsops', ['-n', 20000]), ('hist', ['-n', 1500, '-scans', 12]), ('hist', ['-n', 1000, '-scans', 12, '-focus', 'churn']), ('hist', ['-n', 32, '-scans', 8, '-focus', 'churn', '-slow'])]),
                 aspects=['journal', 'outcome', 'cached-desired', 'hist:removals', 'hist:outcome'], monitors=['C19'],
                 theorems=['Esc.P.C19_delete', 'Esc.P.C19_count', 'Esc.P.C19_refuse', 'Esc.P.C19_k8s_after_cloud', 'Esc.P.C19_scan_batches',
-                          'Esc.P.C19_not_member_scan', 'Esc.P.C19_not_member_fatal', 'Esc.P.C19_membership_fresh', 'Esc.P.forever_stops_on_every_error'],
+                          'Esc.P.C19_not_member_scan', 'Esc.P.C19_not_member_fatal', 'Esc.P.C19_membership_fresh', 'Esc.P.forever_stops_on_every_error', 'Esc.P.gen_deleteGuard_eq', 'Esc.P.C19_source_guard', 'Esc.P.gen_aws_translation_complete'],
                 technique='Lean 4 theorem over the model of aws.NodeGroup.DeleteNodes and TryDeleteNodes (induction over the node list, every failing index) lifted to the scan journal shape + differential correspondence + monitors',
                 level_text='C19_delete: DeleteNodes refuses without any call when the minimum would be breached, else terminates (with decrement) exactly the instances of a prefix of the given nodes, stopping at the first non-member (not-in-group) '
                            'or failed call; C19_count <= desired-min; C19_k8s_after_cloud / C19_scan_batches: Node deletions only after the whole batch was accepted, for both batches of a scan; C19_not_member_*: the error ends the scan and makes RunOnce fatal; C19_membership_fresh: "member" and "minimum" are those of an answer the cloud gave in this same scan (distinct cloud groups). '
